@@ -24,8 +24,8 @@ import (
 
 func init() {
 	gens["C20"] = genC20
-	execs["handle"] = execHandle
-	execs["channel"] = execChannel
+	execs["handle"] = guard(execHandle)
+	execs["channel"] = guard(execChannel)
 }
 
 const carCT = "application/vnd.ipld.car"
